@@ -144,7 +144,10 @@ def run(repo: Repo, L: Ledger, tier: str):
                             continue
                         if actual is None:
                             continue
-                        if names_in(actual) & mine:
+                        # the flag itself (or a boolean expression over it) is handed on; a *call* that takes the flag among its
+                        # arguments consumes it (the edge into that callee is looked at on its own) and returns something else
+                        hands_on = names_in(actual) & mine and not any(isinstance(x_, ast.Call) and names_in(x_) & mine for x_ in ast.walk(actual))
+                        if hands_on:
                             if p not in carriers.setdefault(t.qualname, set()):
                                 carriers[t.qualname].add(p)
                                 changed = True
@@ -172,6 +175,9 @@ def run(repo: Repo, L: Ledger, tier: str):
                         continue
                     mine = carriers.get(f.qualname, set())
                     ok = isinstance(actual, ast.Name) and actual.id in mine
+                    if not ok and not isinstance(actual, ast.Constant):
+                        # something computed is passed: a local, a boolean expression over the flag, the result of a call
+                        raise AnalysisError(f"C16.R3 {inst}: the argument '{norm(actual)[:50]}' is neither the caller's flag parameter nor a constant: whether it still carries the user's choice is not decided")
                     L.check(ok, "R3", inst, f"actual argument is the caller's carrier '{norm(actual)}'", f"actual argument for '{p}' is '{norm(actual)}', not the caller's own flag parameter", f.loc(call))
     L.floor("R3", "call edges carrying the clobber flag", n_edges, 8)
     # the cli parameter itself must not be rebound
